@@ -109,18 +109,60 @@ theorem tlr_append (L : Layout) (pc : TPc) (a b : List Event) :
     tlr L pc (a ++ b) = (tlr L pc a).bind (fun m => tlr L m b) := by
   simp [tlr, List.filterMap_append, trun_append]
 
+theorem tlr_cons (L : Layout) (pc : TPc) (e : Event) (evs : List Event) :
+    tlr L pc (e :: evs) = (match absEvT L e with
+      | none => tlr L pc evs
+      | some l => (tstep pc l).bind (fun m => tlr L m evs)) := by
+  unfold tlr
+  rw [List.filterMap_cons]
+  cases absEvT L e with
+  | none => rfl
+  | some l =>
+    simp only [trun]
+    cases tstep pc l <;> rfl
+
 /-! ## arithmetic of the flag tests -/
 
-theorem band_nat (n m : Nat) : evalBin .band (.int (n : Int)) (.int (m : Int)) = .ok (.int ((n &&& m : Nat) : Int)) := by
-  simp [evalBin]
-theorem band_1 (n : Nat) : evalBin .band (.int (n : Int)) (.int 1) = .ok (.int ((n &&& 1 : Nat) : Int)) := band_nat n 1
-theorem band_2 (n : Nat) : evalBin .band (.int (n : Int)) (.int 2) = .ok (.int ((n &&& 2 : Nat) : Int)) := band_nat n 2
-theorem band_4 (n : Nat) : evalBin .band (.int (n : Int)) (.int 4) = .ok (.int ((n &&& 4 : Nat) : Int)) := band_nat n 4
-theorem band_8 (n : Nat) : evalBin .band (.int (n : Int)) (.int 8) = .ok (.int ((n &&& 8 : Nat) : Int)) := band_nat n 8
+/-- the value of `f & m` (kept folded: `simp` must not normalise `n &&& 1` to `n % 2`) -/
+def bandV (n m : Nat) : Val := .int ((n &&& m : Nat) : Int)
 
-theorem truthy_nat (n : Nat) : (Val.int (n : Int)).truthy = (n != 0) := by
-  simp [Val.truthy]
-theorem bit_def (f m : Nat) : bit f m = (f &&& m != 0) := rfl
+theorem band_nat (n m : Nat) : evalBin .band (.int (n : Int)) (.int (m : Int)) = .ok (bandV n m) := by
+  simp [evalBin, bandV]
+theorem band_1 (n : Nat) : evalBin .band (.int (n : Int)) (.int 1) = .ok (bandV n 1) := band_nat n 1
+theorem band_2 (n : Nat) : evalBin .band (.int (n : Int)) (.int 2) = .ok (bandV n 2) := band_nat n 2
+theorem band_4 (n : Nat) : evalBin .band (.int (n : Int)) (.int 4) = .ok (bandV n 4) := band_nat n 4
+theorem band_8 (n : Nat) : evalBin .band (.int (n : Int)) (.int 8) = .ok (bandV n 8) := band_nat n 8
+
+theorem bandV_truthy (n m : Nat) : (bandV n m).truthy = bit n m := by
+  unfold bandV bit Val.truthy
+  generalize n &&& m = k
+  cases k with
+  | zero => rfl
+  | succ j => simp; omega
+theorem bandV_eq_zero (n m : Nat) : (bandV n m = Val.int 0) = (bit n m = false) := by
+  unfold bandV bit
+  generalize n &&& m = k
+  cases k with
+  | zero => simp
+  | succ j => simp; omega
+
+theorem evalBin_eq (a b : Val) : evalBin .eq a b = .ok (boolV (a = b)) := by cases a <;> cases b <;> rfl
+theorem evalBin_ne (a b : Val) : evalBin .ne a b = .ok (boolV (a ≠ b)) := by cases a <;> cases b <;> rfl
+theorem evalBin_lt (a b : Int) : evalBin .lt (.int a) (.int b) = .ok (boolV (a < b)) := rfl
+theorem evalBin_add (a b : Int) : evalBin .add (.int a) (.int b) = .ok (.int (a + b)) := rfl
+
+theorem truthy_int (n : Int) : (Val.int n).truthy = (n != 0) := rfl
+theorem truthy_ptr (l : Loc) : (Val.ptr l).truthy = true := rfl
+
+/-- symbolic execution as `sexec`, but `evalBin` stays folded (`band_*`, `evalBin_*` are used instead) -/
+syntax "wexec" " [" Lean.Parser.Tactic.simpLemma,* "]" : tactic
+macro_rules
+  | `(tactic| wexec [$ls,*]) =>
+    `(tactic| simp [block, exec_skip, exec_seq, exec_assign, exec_pstore, exec_ifte, exec_loop, exec_brk, exec_cont,
+        exec_prim, exec_assertDbg, exec_ret_none, exec_ret_some, exec_call, seqPost, callPost,
+        eval, evalArgs, execPrim, asLoc, Env.setVar, Env.setPriv, setDst, bind, Except.bind,
+        truthy_int, truthy_ptr, bindParams, evalUn, boolV, evalBin_eq, evalBin_ne, evalBin_lt, evalBin_add,
+        band_1, band_2, band_4, band_8, bandV_truthy, bandV_eq_zero, List.filterMap_cons, *, $ls,*])
 
 /-! ## `wake_worker_thread(workqueue)` (with `futex_wake_up(&workqueue->futex)` inlined by the translator)
 
@@ -134,8 +176,8 @@ def WakeInp (P : List Val → Prop) : List Val → Prop
     (if bit n 1 = true then P rest else
       match rest with
       | [] => True
-      | v :: rest2 =>
-        if v = .int (-1) then
+      | v :: rest2 => ∃ x : Int, v = .int x ∧
+        if x = -1 then
           (match rest2 with
             | [] => True
             | r :: rest3 => IsRetOk r ∧ P rest3)
@@ -155,45 +197,91 @@ theorem wake_worker_exec (L : Layout) (k : K) (P : List Val → Prop) {fuel : Na
   subst hE
   cases inp with
   | nil =>
-    sexec [Gen.Src.«wake_worker_thread», Gen.Src.«futex_wake_up», WakePost, tlr, trun]
+    wexec [Gen.Src.«wake_worker_thread», Gen.Src.«futex_wake_up», WakePost, tlr, trun]
   | cons f rest =>
     obtain ⟨n, rfl, hi⟩ := hi
     by_cases hrt : bit n 1 = true
     · rw [if_pos hrt] at hi
-      have hrt' : ¬ (n &&& 1 = 0) := by simpa [bit_def] using hrt
-      sexec [Gen.Src.«wake_worker_thread», Gen.Src.«futex_wake_up», WakePost, tlr, trun, band_1, truthy_nat,
-        absEvT, tstep, hrt, List.filterMap_cons]
-      exact hi
+      wexec [Gen.Src.«wake_worker_thread», Gen.Src.«futex_wake_up», WakePost, tlr, trun,
+        absEvT, tstep, hrt] <;>
+              try (intro l h1 h2; exact absurd h2 h1)
     · rw [if_neg hrt] at hi
-      have hrt' : n &&& 1 = 0 := by simpa [bit_def] using hrt
       cases rest with
       | nil =>
-        sexec [Gen.Src.«wake_worker_thread», Gen.Src.«futex_wake_up», WakePost, tlr, trun, band_1, truthy_nat,
-          absEvT, tstep, hrt, List.filterMap_cons]
+        wexec [Gen.Src.«wake_worker_thread», Gen.Src.«futex_wake_up», WakePost, tlr, trun,
+          absEvT, tstep, hrt] <;>
+              try (intro l h1 h2; exact absurd h2 h1)
       | cons v rest2 =>
-        simp only at hi
-        by_cases hv : v = .int (-1)
-        · subst hv
+        obtain ⟨x, rfl, hi⟩ := hi
+        by_cases hx : x = -1
+        · subst hx
           rw [if_pos rfl] at hi
           cases rest2 with
           | nil =>
-            sexec [Gen.Src.«wake_worker_thread», Gen.Src.«futex_wake_up», WakePost, tlr, trun, band_1, truthy_nat,
-              absEvT, tstep, hrt, List.filterMap_cons]
+            wexec [Gen.Src.«wake_worker_thread», Gen.Src.«futex_wake_up», WakePost, tlr, trun,
+              absEvT, tstep, hrt] <;>
+              try (intro l h1 h2; exact absurd h2 h1)
           | cons r rest3 =>
             obtain ⟨⟨m, hm, rfl⟩, hi⟩ := hi
             have hm' : ¬ (m < 0) := by omega
-            sexec [Gen.Src.«wake_worker_thread», Gen.Src.«futex_wake_up», WakePost, tlr, trun, band_1, truthy_nat,
-              absEvT, tstep, hrt, List.filterMap_cons]
-            exact hi
-        · rw [if_neg hv] at hi
-          cases v with
-          | int x =>
-            have hx : x ≠ -1 := fun h => hv (by rw [h])
-            sexec [Gen.Src.«wake_worker_thread», Gen.Src.«futex_wake_up», WakePost, tlr, trun, band_1, truthy_nat,
-              absEvT, tstep, hrt, List.filterMap_cons]
-            exact hi
-          | ptr x =>
-            sexec [Gen.Src.«wake_worker_thread», Gen.Src.«futex_wake_up», WakePost, tlr, trun, band_1, truthy_nat,
-              absEvT, tstep, hrt, List.filterMap_cons]
+            wexec [Gen.Src.«wake_worker_thread», Gen.Src.«futex_wake_up», WakePost, tlr, trun,
+              absEvT, tstep, hrt] <;>
+              try (intro l h1 h2; exact absurd h2 h1)
+        · rw [if_neg hx] at hi
+          wexec [Gen.Src.«wake_worker_thread», Gen.Src.«futex_wake_up», WakePost, tlr, trun,
+            absEvT, tstep, hrt] <;>
+              try (intro l h1 h2; exact absurd h2 h1)
+
+/-! ## `urcu_workqueue_queue_work(workqueue, work, func)` -/
+
+/-- well-typed oracle: the old tail returned by the exchange (a pointer – `old_tail->next` is stored to; L2 / C10
+invariant "the tail is never NULL": **queue oracle discipline**), the result of `uatomic_inc` (ignored), the wake path -/
+def QwInp (P : List Val → Prop) : List Val → Prop
+  | [] => True
+  | o :: rest => IsPtr o ∧
+    match rest with
+    | [] => True
+    | _ :: rest2 => WakeInp P rest2
+
+/-- what a call of `urcu_workqueue_queue_work` guarantees, from L2's `enq id k` (i.e. after the entry label `qCall` /
+`qcInc`): `work->func` holds `func` (private until the enqueue), the events are `enq ; inc ; ldFlags ; [ldFutex ;
+[stFutex ; wake]]`, a completed call is at the continuation of the wake path -/
+def QwPost (L : Layout) (id : Nat) (k : K) (P : List Val → Prop) (w : Loc) (fv : Val) (out : Out) : Prop :=
+  (out.ctl = .normal → out.env.priv (.field w "func") = some fv) ∧
+  ∃ pc', tlr L (.enq id k) out.events = some pc' ∧
+    ((out.ctl = .blocked ∧ (pc' = .enq id k ∨ pc' = .inc k ∨ pc' = .ldFlags k ∨ pc' = .ldFutex k ∨ pc' = .wake k)) ∨
+     (out.ctl = .normal ∧ pc' = k.cont ∧ P out.inp))
+
+theorem queue_work_exec (L : Layout) (k : K) (P : List Val → Prop) {fuel : Nat} {env : Env} {inp : List Val}
+    {r : Except String Out} (w : Loc) (id : Nat) (fv : Val) (mbv : Int)
+    (hE : exec fuel Gen.Src.«urcu_workqueue_queue_work» env inp = r)
+    (hw : env.vars "workqueue" = some (.ptr L.W)) (hwk : env.vars "work" = some (.ptr w)) (hid : L.wid w = some id)
+    (hf : env.vars "func" = some fv) (hcfg : env.priv (.glob "CONFIG_RCU_EMIT_LEGACY_MB") = some (.int mbv))
+    (hi : QwInp P inp) :
+    ∃ out, r = .ok out ∧ QwPost L id k P w fv out := by
+  subst hE
+  cases inp with
+  | nil =>
+    by_cases hm : mbv = 0 <;>
+      wexec [Gen.Src.«urcu_workqueue_queue_work», Gen.Src.«_cds_wfcq_node_init», Gen.Src.«_cds_wfcq_enqueue»,
+        Gen.Src.«___cds_wfcq_append», QwPost, tlr, trun, absEvT]
+  | cons o rest =>
+    obtain ⟨⟨ol, rfl⟩, hi⟩ := hi
+    cases rest with
+    | nil =>
+      by_cases hm : mbv = 0 <;>
+        wexec [Gen.Src.«urcu_workqueue_queue_work», Gen.Src.«_cds_wfcq_node_init», Gen.Src.«_cds_wfcq_enqueue»,
+          Gen.Src.«___cds_wfcq_append», QwPost, tlr, trun, absEvT, tstep]
+    | cons u rest2 =>
+      simp only at hi
+      by_cases hm : mbv = 0 <;>
+        wexec [Gen.Src.«urcu_workqueue_queue_work», Gen.Src.«_cds_wfcq_node_init», Gen.Src.«_cds_wfcq_enqueue»,
+          Gen.Src.«___cds_wfcq_append»]
+      all_goals
+        generalize hE : exec fuel Gen.Src.«wake_worker_thread» _ _ = r
+        obtain ⟨out, rfl, hp1, pc', hpc', hcase⟩ := wake_worker_exec L k P hE (by simp) hi
+        rcases out with ⟨ev, en, ip, ctl⟩
+        rcases hcase with ⟨rfl, hb⟩ | ⟨rfl, rfl, hP⟩ <;>
+          simp_all [QwPost, tlr_cons, absEvT, tstep]
 
 end UrcuVerif.Src.WqR
